@@ -2,6 +2,8 @@ package rules
 
 import (
 	"go/ast"
+	"go/constant"
+	"go/token"
 	"go/types"
 	"sort"
 	"strings"
@@ -17,7 +19,7 @@ func init() { register("C18", checkC18) }
 const pParserAST = "github.com/arana-db/parser/ast"
 
 func checkC18(r *core.Run) {
-	r.Explain = "The property itself (recorded image == rows the statement changed) ranges over database contents and is NOT decidable statically. Three structural necessary conditions are decided: (C18.derive) the before-image SELECT of update/delete (and their multi-statement variants) takes From/Where/OrderBy/Limit from the business statement's own AST nodes and locks FOR UPDATE, and the argument selection traverses exactly the expression-bearing clauses that were copied; (C18.markers) the parameter-marker collector is complete: it walks the expression with the parser's visitor, or its type switch covers every expression node type of the parser that has expression children and recurses into all of them; (C18.scan) the scan-type table and the JDBC code table agree for every MySQL data type (no integer scan type for a binary/text code and the like); (C18.recorded) an executor adds a before/after image to the transaction's round images only on the nil-error edge of the business statement (the callback) and only after both images were built without error — an image recorded for a statement the database refused describes rows that were not changed; (C18.fresh) util.ScanRows.Scan leaves a destination untouched when the source column is NULL, so every call to it inside a row loop gets destinations created inside that loop iteration (a destination slice built once per result set makes a NULL column of a later row keep the previous row's value)."
+	r.Explain = "The property itself (recorded image == rows the statement changed) ranges over database contents and is NOT decidable statically. Three structural necessary conditions are decided: (C18.derive) the before-image SELECT of update/delete (and their multi-statement variants) takes From/Where/OrderBy/Limit from the business statement's own AST nodes and locks FOR UPDATE, and the argument selection traverses exactly the expression-bearing clauses that were copied; (C18.markers) the parameter-marker collector is complete: it walks the expression with the parser's visitor, or its type switch covers every expression node type of the parser that has expression children and recurses into all of them; (C18.scan) the scan-type table and the JDBC code table agree for every MySQL data type (no integer scan type for a binary/text code and the like); (C18.sticky) where one image query covers several statements, the flag that keeps the WHERE clause in that query can only be lowered inside the loop over the statements (once a statement without WHERE was seen the whole table is selected, whatever follows); (C18.clause) an optional clause of the parsed statement (Where, Limit, Order/OrderBy — nil when the statement has none) is used as a method receiver only where it was tested non-nil on every path, so a statement without that clause is handled or rejected instead of crashing the executor; (C18.recorded) an executor adds a before/after image to the transaction's round images only on the nil-error edge of the business statement (the callback) and only after both images were built without error — an image recorded for a statement the database refused describes rows that were not changed; (C18.fresh) util.ScanRows.Scan leaves a destination untouched when the source column is NULL, so every call to it inside a row loop gets destinations created inside that loop iteration (a destination slice built once per result set makes a NULL column of a later row keep the previous row's value)."
 	r.Trusted = []string{"go/types", "github.com/arana-db/parser: Accept visits every child node", "MySQL information_schema DATA_TYPE spellings (reference list)"}
 	w := r.W
 	_, live := liveATExecutors(w)
@@ -212,6 +214,10 @@ func checkC18(r *core.Run) {
 	r.Floor("C18.fresh", 2)
 	c18Recorded(r, live)
 	r.Floor("C18.recorded", 10)
+	c18Clause(r, live)
+	r.Floor("C18.clause", 2)
+	c18Sticky(r, live, "C18.sticky")
+	r.Floor("C18.sticky", 1)
 }
 
 // c18Markers: visitor-based, or a total type switch.
@@ -514,4 +520,174 @@ func c18Recorded(r *core.Run, live []*types.Named) {
 func hasErr(f *types.Func) bool {
 	_, ok := core.HasErrorResult(f.Type().(*types.Signature))
 	return ok
+}
+
+// c18Clause: optional clauses of the parser's statement nodes are dereferenced only under a nil test.
+func c18Clause(r *core.Run, live []*types.Named) {
+	w := r.W
+	optional := map[string]bool{"Where": true, "Limit": true, "Order": true, "OrderBy": true}
+	clauseExpr := func(info *types.Info, e ast.Expr) (string, bool) {
+		sel, ok := ast.Unparen(e).(*ast.SelectorExpr)
+		if !ok || !optional[sel.Sel.Name] {
+			return "", false
+		}
+		fv, ok := info.Uses[sel.Sel].(*types.Var)
+		if !ok || !fv.IsField() || fv.Pkg() == nil || !strings.Contains(fv.Pkg().Path(), "/parser/ast") {
+			return "", false
+		}
+		return core.ExprString(sel), true
+	}
+	var fns []*core.FuncInfo
+	for _, t := range live {
+		if m := methodInfo(w, t, "ExecContext"); m != nil {
+			fns = append(fns, m)
+		}
+	}
+	fns = dedupFns(append(fns, reachFrom(w, fns, pExecAT)...))
+	for _, f := range fns {
+		if w.IsTestFile(f.Decl.Pos()) || f.Decl.Body == nil {
+			continue
+		}
+		info := f.Pkg.TypesInfo
+		uses := false
+		ast.Inspect(f.Decl.Body, func(n ast.Node) bool {
+			if c, ok := n.(*ast.CallExpr); ok {
+				if sel, ok := ast.Unparen(c.Fun).(*ast.SelectorExpr); ok {
+					if _, ok := clauseExpr(info, sel.X); ok {
+						uses = true
+					}
+				}
+			}
+			return !uses
+		})
+		if !uses {
+			continue
+		}
+		r.Fn(f)
+		sp := &flow.Spec{W: w, Depth: 0,
+			Classify: func(pkg *packages.Package, call *ast.CallExpr, callee *types.Func) []flow.Tag {
+				if sel, ok := ast.Unparen(call.Fun).(*ast.SelectorExpr); ok {
+					if txt, ok := clauseExpr(pkg.TypesInfo, sel.X); ok {
+						return []flow.Tag{"use:" + txt}
+					}
+				}
+				return nil
+			},
+			CondTags: func(pkg *packages.Package, cond ast.Expr, branch bool) []flow.Tag {
+				be, ok := ast.Unparen(cond).(*ast.BinaryExpr)
+				if !ok || (be.Op != token.EQL && be.Op != token.NEQ) || !isNilIdent(pkg.TypesInfo, be.Y) {
+					return nil
+				}
+				txt, ok := clauseExpr(pkg.TypesInfo, be.X)
+				if !ok {
+					return nil
+				}
+				if (be.Op == token.NEQ) == branch {
+					return []flow.Tag{"nonnil:" + txt}
+				}
+				return nil
+			}}
+		res := sp.Analyze(f)
+		for _, cp := range res.Calls {
+			for _, t := range cp.Tags {
+				if !strings.HasPrefix(t, "use:") {
+					continue
+				}
+				txt := strings.TrimPrefix(t, "use:")
+				r.Sites++
+				r.Check(cp.Before.Has("nonnil:"+txt), "C18.clause", core.ShortKey(f.Obj)+" uses "+txt+" only when the statement has that clause", w.Pos(cp.Call.Pos()), "dominated by "+txt+" != nil",
+					txt+" is nil for a statement without that clause and is used as a method receiver here without a nil test on every path: such a statement crashes the executor (nil dereference) instead of being handled or rejected")
+			}
+		}
+	}
+}
+
+// c18Sticky: a boolean that is true before a loop over the statements, decides after the loop whether the
+// image query gets a WHERE clause, and is assigned inside the loop, is only ever assigned the constant false there.
+func c18Sticky(r *core.Run, live []*types.Named, rule string) {
+	w := r.W
+	var fns []*core.FuncInfo
+	for _, t := range live {
+		if m := methodInfo(w, t, "ExecContext"); m != nil {
+			fns = append(fns, m)
+		}
+	}
+	fns = dedupFns(append(fns, reachFrom(w, fns, pExecAT)...))
+	for _, f := range fns {
+		if w.IsTestFile(f.Decl.Pos()) || f.Decl.Body == nil {
+			continue
+		}
+		info := f.Pkg.TypesInfo
+		ast.Inspect(f.Decl.Body, func(n ast.Node) bool {
+			blk, ok := n.(*ast.BlockStmt)
+			if !ok {
+				return true
+			}
+			for i, st := range blk.List {
+				loop, ok := st.(*ast.RangeStmt)
+				if !ok {
+					continue
+				}
+				// if statements after the loop, in the same block, whose branches mention WHERE
+				for _, after := range blk.List[i+1:] {
+					ifs, ok := after.(*ast.IfStmt)
+					if !ok {
+						continue
+					}
+					id, ok := ast.Unparen(ifs.Cond).(*ast.Ident)
+					if !ok {
+						if ue, isNot := ast.Unparen(ifs.Cond).(*ast.UnaryExpr); isNot && ue.Op == token.NOT {
+							id, ok = ast.Unparen(ue.X).(*ast.Ident)
+						}
+					}
+					if !ok || id == nil {
+						continue
+					}
+					flag, ok := info.Uses[id].(*types.Var)
+					if !ok {
+						continue
+					}
+					mentionsWhere := false
+					ast.Inspect(ifs, func(m ast.Node) bool {
+						if e, ok := m.(ast.Expr); ok {
+							if v := core.ConstVal(info, e); v != nil && v.Kind() == constant.String && strings.Contains(strings.ToUpper(constant.StringVal(v)), "WHERE") {
+								mentionsWhere = true
+							}
+						}
+						return true
+					})
+					if !mentionsWhere {
+						continue
+					}
+					// assignments to the flag inside the loop
+					bad, n := "", 0
+					ast.Inspect(loop.Body, func(m ast.Node) bool {
+						as, ok := m.(*ast.AssignStmt)
+						if !ok {
+							return true
+						}
+						for k, l := range as.Lhs {
+							if core.ObjOf(info, l) != flag || k >= len(as.Rhs) {
+								continue
+							}
+							n++
+							v := core.ConstVal(info, as.Rhs[k])
+							if v == nil || v.Kind() != constant.Bool || constant.BoolVal(v) {
+								bad = w.Pos(as.Pos()) + ": " + flag.Name() + " = " + core.ExprString(as.Rhs[k])
+							}
+						}
+						return true
+					})
+					if n == 0 {
+						continue
+					}
+					r.Fn(f)
+					r.Sites++
+					r.Check(bad == "", rule, core.ShortKey(f.Obj)+" : "+flag.Name()+" can only be lowered inside the loop over the statements", w.Pos(loop.Pos()), "assigned the constant false only",
+						"the flag that keeps the WHERE clause of the combined image query is assigned a computed value inside the loop ("+bad+"): a statement without WHERE followed by one with WHERE raises it again, the query selects only the later statement's rows, and image and lock keys miss rows the first statement changes")
+				}
+			}
+			return true
+		})
+	}
 }
